@@ -469,7 +469,12 @@ func (g *Gen) CoverChecks(header string, results []*FnResult, outDir string, par
 			defer func() { <-sem; done <- i }()
 			file := filepath.Join(outDir, sanitizeFile(j.name)+".smt2")
 			os.WriteFile(file, []byte(j.text), 0o644)
-			st, _, _ := runSolver(solvers[0], file, 2)
+			// two instantiation strategies, 1 s each: a contradiction among quantified assumptions that E-matching
+			// finds in a fraction of a second can take the default (MBQI) configuration far longer, and vice versa
+			st, _, _ := runSolver(z3NoMBQI, file, 1)
+			if st != "unsat" {
+				st, _, _ = runSolver(solvers[0], file, 1)
+			}
 			out[i] = CoverResult{Name: j.name, OK: st != "unsat", Detail: "path condition and assumptions: " + st}
 		}(i, j)
 	}
